@@ -7,6 +7,10 @@ Monitors:
   pipe    FlowControlAsyncPipe under random write/pause/resume/sink-progress
   rig     two/three devices streaming over tiny controller buffers, one link
           dropped mid-stream; credit ledger computed from the HCI tap log
+  hostwire a real Host initialised by its own reset() against a real Controller with three
+          different pools (BR/EDR ACL, LE ACL or shared, ISO; v2/v1 buffer-size commands),
+          the controller's data side played by hand (vlib/hostwire.py): ledger per pool over
+          connect / send / completion / disconnect / BIG termination / second reset histories
 """
 from __future__ import annotations
 
@@ -21,15 +25,26 @@ LEVEL = 'exploration'
 RULE = ('seeded random histories; a queue history is non-trivial when it had >=2 connections '
         'or a flush or an over/unknown report while packets were waiting; distinct = distinct '
         'operation-sequence hash. pipe histories non-trivial when >=2 packets were queued at '
-        'once; rig cases non-trivial when a buffer-full wait was observed in the HCI log')
+        'once; rig cases non-trivial when a buffer-full wait was observed in the HCI log. '
+        'hostwire histories (Host.reset() against a Controller with three different pools, then '
+        'hand-played connection / completion / disconnection events, optionally a second reset with '
+        'another geometry) are non-trivial when a buffer-full wait was observed and >=2 pools carried '
+        'packets; distinct = distinct (geometries, operation sequence)')
 ASSUMPTIONS = [
     'an over-report for handle h of n packets is taken to complete min(n, in-flight[h]) packets; '
     'reports for unknown handles complete nothing',
     'queued/completed/pending are compared with the model only in histories without over-reports',
+    'hostwire: a pool\'s capacity is what the controller wrote into its (LE_)Read_Buffer_Size[_V2] Command '
+    'Complete; a zero LE length/count means LE links use the BR/EDR pool; the controller frees the buffers of '
+    'a handle when it reports its disconnection (or the termination of its BIG); every link is gone before '
+    'Host.reset() is called a second time',
 ]
 MIN_EVENTS = {
-    'quick': {'queue_ops': 300000, 'pipe_writes': 15000, 'rig_acl_packets': 1500, 'drain_waiters': 40000},
-    'thorough': {'queue_ops': 5000000, 'pipe_writes': 300000, 'rig_acl_packets': 15000, 'drain_waiters': 500000},
+    'quick': {'queue_ops': 300000, 'pipe_writes': 15000, 'rig_acl_packets': 1500, 'drain_waiters': 40000,
+              # hostwire: deciding counters (placeholders, set from measured runs below)
+              'hostwire_histories': 0},
+    'thorough': {'queue_ops': 5000000, 'pipe_writes': 300000, 'rig_acl_packets': 15000, 'drain_waiters': 500000,
+                 'hostwire_histories': 0},
 }
 CASE_TIMEOUT = 600
 
@@ -46,6 +61,9 @@ def plan(tier, seed):
     nrig = 128 if tier == 'quick' else 960
     for i in range(nrig):
         cases.append({'kind': 'rig', 'seed': seed * 100003 + i})
+    nhw = 64 if tier == 'quick' else 640
+    for i in range(nhw):
+        cases.append({'kind': 'hostwire', 'seed': seed * 100003 + i, 'histories': 20 if tier == 'quick' else 40})
     return cases
 
 
@@ -538,9 +556,102 @@ async def rig_case(case, r: R):
                 'pdus': {p: len(m) for p, m in msgs.items()}, 'acl_packets': acl, 'peak_outstanding': peak}
 
 
+# =============================================================================
+# hostwire: Host.reset() geometry wiring + link life-cycle, judged on the ledger of
+# vlib/hostwire.py (credits per pool, FIFO/exactly-once per link, no stall, drain)
+# =============================================================================
+class HostwireJudge:
+    def __init__(self, r: R):
+        self.r = r
+
+    def on_reset(self, sc):
+        pass
+
+    def on_exception(self, sc, what, e):
+        self.r.bad(f'hostwire/raises/{what}', f'{type(e).__name__}: {e}; {sc.context()}')
+
+    def on_stray(self, sc, pk):
+        last = [d for d in sc.dead if d.handle == pk.handle]
+        pool = last[-1].pool.name if last else 'never-connected'
+        self.r.ev('oracle_evals')
+        self.r.bad(f'hostwire/sent-to-dead-handle/{pool}',
+                   f'{pk.brief()} handed to the controller for a handle without a link; {sc.context()}')
+
+    def on_emit(self, sc, pk):
+        r, link = self.r, pk.link
+        pool = link.pool
+        phase = '' if sc.phase < 2 else '/after-second-reset'
+        r.ev('oracle_evals', 3)
+        if pk.type != (5 if link.is_iso else 2):
+            r.bad(f'hostwire/packet-type/{pool.name}', f'{pk.brief()} on {link!r}; {sc.context()}')
+        # exactly once, in per-link submission order: the stream bytes of this packet are the
+        # next bytes of what was submitted on this life of the handle
+        want = bytes(link.submitted[pk.offset:pk.offset + len(pk.payload)])
+        if want != pk.payload:
+            stale = len(pk.payload) >= 4 and any(
+                d.handle == link.handle and pk.payload in d.submitted for d in sc.dead)
+            key = 'sent-after-disconnect' if stale else 'order'
+            r.bad(f'hostwire/{key}/{pool.name}',
+                  f'{pk.brief()} on {link!r} carries {pk.payload[:12].hex()}.. at stream offset {pk.offset}, '
+                  f'submitted stream has {want[:12].hex()}.. ({len(link.submitted)} bytes submitted); {sc.context()}')
+        tot = sc.pool_inflight(pool)
+        if tot > pool.count:
+            r.bad(f'hostwire/over-credit/{pool.name}{phase}',
+                  f'{tot} packets in flight in pool {pool.name} for which the controller advertised {pool.count} '
+                  f'buffers ({ {repr(l): l.inflight for l in sc.pool_links(pool)} }); {sc.context()}')
+
+    def on_link_closed(self, sc, link):
+        pass
+
+    def on_settle(self, sc, after):
+        r = self.r
+        label = sc.after_label(after)
+        for pool in sc.pools.values():
+            waiting = sc.pool_waiting(pool)
+            tot = sc.pool_inflight(pool)
+            r.ev('oracle_evals')
+            if waiting and tot < pool.count:
+                r.bad(f'hostwire/stall/{pool.name}/{label}',
+                      f'{[repr(l) for l in waiting]} have {[l.waiting for l in waiting]} stream bytes waiting while '
+                      f'pool {pool.name} has {pool.count - tot} of {pool.count} buffers free; {sc.context()}')
+        for w in list(sc.waiters):
+            link = w.link
+            r.ev('oracle_evals')
+            r.ev('hostwire_drain_pending_checks')
+            if not (link.alive and (link.inflight or link.waiting)):
+                r.bad(f'hostwire/drain-pending/{link.pool.name}/{label}',
+                      f'drain({link.handle:#x}) asked at step {w.born} still pending although {link!r} '
+                      f'{"has nothing in flight or queued" if link.alive else "was discarded " + str(link.closed_with)}; '
+                      f'{sc.context()}')
+                w.task.cancel()
+                sc.waiters.remove(w)
+
+    def on_finish(self, sc):
+        for link in sc.live.values():
+            self.r.ev('oracle_evals')
+            if link.waiting:
+                self.r.bad(f'hostwire/stall/{link.pool.name}/final',
+                           f'{link!r}: {link.waiting} stream bytes never handed over although every buffer was '
+                           f'returned; {sc.context()}')
+
+
+async def hostwire_case(case, r: R):
+    from vlib import hostwire
+    rng = random.Random(case['seed'] ^ 0x4057)
+    sc = None
+    for _ in range(case['histories']):
+        sc = await hostwire.run_history(rng, r, HostwireJudge(r))
+        if any(p.full_waits for p in sc.pools.values()) and sum(1 for p in sc.pools.values() if p.packets) >= 2:
+            r.sig('hostwire', *sc.signature())
+        r.evals()
+    r.sample = sc.summary()
+
+
 async def run_case(case, r: R):
     rng = random.Random(case['seed'])
-    if case['kind'] == 'queue':
+    if case['kind'] == 'hostwire':
+        await hostwire_case(case, r)
+    elif case['kind'] == 'queue':
         for i in range(case['histories']):
             s = await queue_history(rng, r, i)
         r.sample = {'kind': 'queue', **s}
@@ -555,8 +666,12 @@ LEVEL_TEXT = ('Lock-step reference model beside the real DataPacketQueue over ~1
               '(thorough) random multi-connection histories including flushes, over-reports and '
               'unknown handles; order/exactly-once oracle on FlowControlAsyncPipe under random '
               'pause/resume/sink progress; credit ledger and delivery oracle over the HCI tap log of '
-              '2-3 device rigs with 1-4 controller buffers and a link dropped mid-stream. Held = no '
+              '2-3 device rigs with 1-4 controller buffers and a link dropped mid-stream; per-pool credit / '
+              'FIFO / no-stall / drain ledger over ~10^3 (quick) / 2.5x10^4 (thorough) histories of a real Host '
+              'reset against a Controller with three different buffer pools (dedicated or shared LE, ISO, '
+              'v1/v2 commands), hand-played link life-cycle and a second reset with another geometry. Held = no '
               'refuting execution among those observed; this is sampling, not proof.')
-LEVEL_NOTE = ('Trusted: the 60-line model in checks/c04.py, the tap/delay pipes of vlib/rig.py, '
+LEVEL_NOTE = ('Trusted: the 60-line model in checks/c04.py, the ledger and hand-written HCI events of '
+              'vlib/hostwire.py, the tap/delay pipes of vlib/rig.py, '
               'CPython asyncio. Assumes an over-report completes min(n, in-flight of that handle).')
 TECHNIQUE = 'runtime monitoring: lock-step reference model + offline HCI-log credit ledger'
